@@ -297,9 +297,22 @@ func checkApply(c *core.Ctx, idx int64, root cty.Value, p cty.Path, edit, rootCl
 	want, need, ok, undecided, why := mv.val, mv.need, mv.ok, mv.undecided, mv.why
 	var got cty.Value
 	var err error
+	psnap := snapPath(p)
 	o := core.Guard(func() { got, err = p.Apply(root) })
 	c.Eval(1)
 	c.Count("op:Path.Apply(iff)")
+	argPath(c, "Path.Apply", desc(), psnap, p)
+	if !o.Panicked {
+		// repeated with the same path and root: same outcome
+		var got2 cty.Value
+		var err2 error
+		o2 := core.Guard(func() { got2, err2 = p.Apply(root) })
+		c.Eval(1)
+		c.Count("clause:repeatable")
+		if o2.Panicked || (err == nil) != (err2 == nil) || (err == nil && !rawSame(got, got2)) {
+			c.Violate("Path.Apply", facetNotRepeatable, "", desc(), fmt.Sprintf("first (%#v, %v), second (%#v, %v) %s", got, err, got2, err2, o2.PanicMsg))
+		}
+	}
 	if rootClass == "corpus" {
 		c.Count("apply-edit:(corpus entry)")
 	} else {
